@@ -16,6 +16,7 @@ import (
 	"path/filepath"
 	"sort"
 	"strings"
+	"sync"
 	"sync/atomic"
 
 	"github.com/AdguardTeam/urlfilter"
@@ -374,6 +375,8 @@ func makeHistStorage(rnd *rand.Rand, lines []string, dir string, forceFile bool)
 	parts := [][]string{lines[:cut], lines[cut:]}
 	var ls []filterlist.RuleList
 	var files []string
+	// list ids 0 and 1, or 1 and 2: 0 is an id like any other
+	idBase := rnd.Intn(2)
 	for i, p := range parts {
 		text := strings.Join(p, "\n")
 		if rnd.Intn(2) == 0 {
@@ -385,14 +388,14 @@ func makeHistStorage(rnd *rand.Rand, lines []string, dir string, forceFile bool)
 				return nil, nil, err
 			}
 			files = append(files, fn)
-			fl, err := filterlist.NewFileRuleList(i+1, fn, false)
+			fl, err := filterlist.NewFileRuleList(i+idBase, fn, false)
 			if err != nil {
 				return nil, nil, err
 			}
 			ls = append(ls, fl)
 			lastFileLists = append(lastFileLists, fl)
 		} else {
-			ls = append(ls, &filterlist.StringRuleList{ID: i + 1, RulesText: text})
+			ls = append(ls, &filterlist.StringRuleList{ID: i + idBase, RulesText: text})
 		}
 	}
 	if wrapHistList != nil {
@@ -546,6 +549,27 @@ func cmdDriveHistory(args []string) error {
 				asked = append(asked, q)
 			}
 		}
+		// every distinct query once more on the SAME engines, from 4 goroutines at a time: what one request brought along
+		// must not show up in the answer to another one; answers that differ from the history's are logged
+		{
+			seqAnswer := map[string]string{}
+			for _, q := range asked {
+				a, _, _, _ := eng.run(q)
+				seqAnswer[q.key()] = shortDigest(a)
+			}
+			var cmu sync.Mutex
+			differing := 0
+			concurrently(len(asked), 4, seedFresh, func(_, i int) {
+				a, _, _, _ := eng.run(asked[i])
+				if d := shortDigest(a); d != seqAnswer[asked[i].key()] {
+					cmu.Lock()
+					if differing++; differing <= 20 {
+						out.write(map[string]any{"ev": "fresh", "q": asked[i].key(), "a": d, "rid": 0, "k": "concurrent", "h": hnum})
+					}
+					cmu.Unlock()
+				}
+			})
+		}
 		cleanup()
 		// every distinct query once more in a NEW PROCESS, in the reverse order of first appearance
 		fin := freshInput{Lines: lines, Seed: seedFresh, Dir: m["dir"]}
@@ -618,6 +642,24 @@ func cmdDriveFault(args []string) error {
 	rnd := rand.New(rand.NewSource(seed()*11 + 4))
 	nh, hl := argInt(m, "histories", 20), argInt(m, "len", 60)
 	only := argInt(m, "only", -1)
+	// a query on a faulted engine that does not come back is as bad as a crash: every query runs under a watchdog
+	watched := func(e *histEngines, q *histQuery) (g, gn []string, pv string, hung bool) {
+		type ans struct {
+			g, gn []string
+			pv    string
+		}
+		done := make(chan ans, 1)
+		go func() {
+			_, _, g, gn, p := e.run2(q)
+			done <- ans{g, gn, p}
+		}()
+		select {
+		case a := <-done:
+			return a.g, a.gn, a.pv, false
+		case <-time.After(8 * time.Second):
+			return nil, nil, "the query did not return within 8 s (deadlock)", true
+		}
+	}
 	queries, afterFault, served, gatedRuns := 0, 0, 0, 0
 	var samples []string
 	for hnum := 0; hnum < nh; hnum++ {
@@ -728,16 +770,37 @@ func cmdDriveFault(args []string) error {
 				var p string
 				_, _, tw, twn, _ := twin.run2(q0)
 				if parkAt == "cache-miss" {
-					_, _, g, gn, p = eng.run2(q0)
+					g, gn, p, hung = watched(eng, q0)
 					if p != "" {
 						g = []string{"PANIC"}
 					}
 					out.write(map[string]any{"ev": "query", "q": q0.key(), "got": nz(g), "gotnet": nz(gn), "twin": nz(tw), "twinnet": nz(twn),
 						"ref": nz(trulyMatching(parsed, q0)), "kind": p, "h": hnum})
+					if hung {
+						close(release)
+						setYield(nil)
+						break
+					}
 				}
-				_ = st.Close()
+				// (an implementation whose Close waits for the list's lock cannot finish while the in-flight query is held
+				// inside that lock: Close runs on the side, and if it has not returned after a second the query is let go
+				// first - then the read simply succeeds, which is fine too)
+				closed := make(chan struct{})
+				go func() {
+					_ = st.Close()
+					close(closed)
+				}()
+				select {
+				case <-closed:
+				case <-time.After(time.Second):
+				}
 				out.write(map[string]any{"ev": "fault", "q": "", "got": []string{}, "gotnet": []string{}, "twin": []string{}, "twinnet": []string{}, "ref": []string{}, "kind": "close with a query in flight", "h": hnum})
 				close(release)
+				select {
+				case <-closed:
+				case <-time.After(8 * time.Second):
+					hung = true
+				}
 				select {
 				case p = <-finished:
 				case <-time.After(8 * time.Second):
@@ -751,13 +814,16 @@ func cmdDriveFault(args []string) error {
 				if hung {
 					break // the stuck query may hold a lock of the list: nothing more can be asked of this engine
 				}
-				_, _, g, gn, p = eng.run2(q0)
+				g, gn, p, hung = watched(eng, q0)
 				if p != "" {
 					g = []string{"PANIC"}
 				}
 				out.write(map[string]any{"ev": "query", "q": q0.key(), "got": nz(g), "gotnet": nz(gn), "twin": nz(tw), "twinnet": nz(twn),
 					"ref": nz(trulyMatching(parsed, q0)), "kind": p, "h": hnum})
 				gatedRuns++
+				if hung {
+					break
+				}
 			} else if i == faultAt && transient {
 				failing.Store(true)
 				out.write(map[string]any{"ev": "fault", "q": "", "got": []string{}, "gotnet": []string{}, "twin": []string{}, "twinnet": []string{}, "ref": []string{}, "kind": "transient", "h": hnum})
